@@ -224,7 +224,11 @@ def read(index, rep):
     ret = None
     read_name = None
     status_name = None
-    model_p = fn.args.args[1].arg if len(fn.args.args) > 1 else "model"
+    # the LP is the parameter the routine solves (whatever it is called and wherever it stands in the signature)
+    solved = [st.value.func.value.id for st in body if isinstance(st, ast.Assign) and isinstance(st.value, ast.Call)
+              and isinstance(st.value.func, ast.Attribute) and st.value.func.attr == "solve" and isinstance(st.value.func.value, ast.Name)
+              and st.value.func.value.id in [a.arg for a in fn.args.args]]
+    model_p = solved[0] if solved else "model"
     flag_ok = False
     for i, st in enumerate(body):
         txt = norm_src(st)
